@@ -99,6 +99,39 @@ def register(reg, prog):
         return [(st, r)]
     reg.externals['bytes.lstrip'] = lstrip
 
+    def strip_both(ex, st, args, kw, node):
+        """bytes.strip(one byte): leading AND trailing occurrences removed"""
+        b, chars = args
+        if not (z3.is_int_value(z3.simplify(chars.len)) and z3.simplify(chars.len).as_long() == 1):
+            ex.unsupported(node, 'strip with other than one character')
+        c = z3.simplify(chars.at(z3.IntVal(0)))
+        n = z3.simplify(b.len)
+        if z3.is_int_value(n) and n.as_long() <= 8:
+            # concrete length: one case per (leading, trailing) count, no quantifiers
+            out, N = [], n.as_long()
+            for k in range(N + 1):
+                for m in range(0, N - k + 1):
+                    if k == N and m > 0:
+                        continue
+                    conds = [b.at(z3.IntVal(i)) == c for i in range(k)] + [b.at(z3.IntVal(N - 1 - i)) == c for i in range(m)]
+                    if k + m < N:
+                        conds += [b.at(z3.IntVal(k)) != c, b.at(z3.IntVal(N - m - 1)) != c]
+                    elif m > 0:
+                        continue
+                    st_k, _ = ex.branch(st.copy(), z3.And(*conds) if conds else z3.BoolVal(True))
+                    if st_k is not None:
+                        out.append((st_k, ex.bytes_slice(b, z3.IntVal(k), z3.IntVal(N - m))))
+            return out
+        k, m, j = z3.Int(fresh_name('strip')), z3.Int(fresh_name('rstrip')), z3.Int(fresh_name('sj'))
+        r = VBytes(z3.simplify(b.len - k - m), lambda i, b=b, k=k: b.at(z3.simplify(i + k)))
+        st.assume(z3.And(0 <= k, 0 <= m, k + m <= b.len,
+                         z3.ForAll([j], z3.Implies(z3.And(0 <= j, j < k), b.at(j) == c)),
+                         z3.ForAll([j], z3.Implies(z3.And(b.len - m <= j, j < b.len), b.at(j) == c)),
+                         z3.Implies(k + m < b.len, z3.And(b.at(k) != c, b.at(b.len - m - 1) != c)),
+                         z3.Implies(k + m == b.len, m == 0)))
+        return [(st, r)]
+    reg.externals['bytes.strip'] = strip_both
+
     def tm_wf(allow_shutdown):
         def f(ex, st, tm):
             o = ex.read_field(st, tm, 'outgoing_requests', F['outgoing_requests'])
